@@ -12,6 +12,95 @@ use std::fmt::Write;
 use std::path::PathBuf;
 
 impl Vm {
+  /// The sequence id of the current fiber
+  pub(super) fn verif_fiber_id(&self) -> u64 {
+    core_verif::id(core_verif::K_FIBER, self.fiber.to_usize())
+  }
+
+  /// Render a value for an event
+  pub(super) fn verif_value(value: Value) -> String {
+    if value.is_obj() {
+      let obj = value.to_obj();
+      match obj.kind() {
+        ObjectKind::String => core_verif::json_str(&format!("'{}'", obj.to_str())),
+        kind => core_verif::json_str(&format!("<{kind:?}>")),
+      }
+    } else {
+      core_verif::json_str(&format!("{value}"))
+    }
+  }
+
+  /// Record a channel creation
+  pub(super) fn verif_chan_new(&self, channel: laythe_core::ObjRef<laythe_core::object::Channel>, sync: bool) {
+    if core_verif::wants(core_verif::SCHED) {
+      let id = core_verif::fresh(core_verif::K_CHANNEL, channel.verif_queue_addr());
+      core_verif::emit(
+        core_verif::SCHED,
+        format!(
+          "{{\"ev\":\"chan\",\"f\":{},\"c\":{},\"cap\":{},\"sync\":{}}}",
+          self.verif_fiber_id(),
+          id,
+          channel.capacity(),
+          sync
+        ),
+      );
+    }
+  }
+
+  /// Record the outcome of a channel operation
+  pub(super) fn verif_chan_op(
+    &self,
+    ev: &str,
+    channel: laythe_core::ObjRef<laythe_core::object::Channel>,
+    res: &str,
+    value: Option<Value>,
+  ) {
+    if core_verif::wants(core_verif::SCHED) {
+      core_verif::emit(
+        core_verif::SCHED,
+        format!(
+          "{{\"ev\":\"{}\",\"f\":{},\"c\":{},\"res\":\"{}\",\"v\":{},\"len\":{}}}",
+          ev,
+          self.verif_fiber_id(),
+          core_verif::id(core_verif::K_CHANNEL, channel.verif_queue_addr()),
+          res,
+          value.map(Self::verif_value).unwrap_or_else(|| "\"\"".to_string()),
+          channel.len()
+        ),
+      );
+    }
+  }
+
+  /// Record a scheduler event about a fiber
+  pub(super) fn verif_fiber_event(&self, ev: &str, fiber: laythe_core::Ref<crate::fiber::Fiber>) {
+    if core_verif::wants(core_verif::SCHED) {
+      core_verif::emit(
+        core_verif::SCHED,
+        format!(
+          "{{\"ev\":\"{}\",\"f\":{},\"t\":{}}}",
+          ev,
+          self.verif_fiber_id(),
+          core_verif::id(core_verif::K_FIBER, fiber.to_usize())
+        ),
+      );
+    }
+  }
+
+  /// Record a scheduler event without arguments
+  pub(super) fn verif_sched_event(&self, ev: &str, code: i64) {
+    if core_verif::wants(core_verif::SCHED) {
+      core_verif::emit(
+        core_verif::SCHED,
+        format!(
+          "{{\"ev\":\"{}\",\"f\":{},\"code\":{}}}",
+          ev,
+          self.verif_fiber_id(),
+          code
+        ),
+      );
+    }
+  }
+
   /// Compile a source as the main module without executing it. Returns the script function
   /// and the number of property and invoke cache slots of the module
   pub fn verif_compile(&mut self, source_content: &str, repl: bool) -> Result<(Value, usize, usize), usize> {
